@@ -227,7 +227,8 @@ def classify_req(spec, r):
         nd = len(r["vals"])
         if reqty not in ALLOWED[ty] or any(spec.enc(ty, x, reqty) is None for x in r["vals"]):
             v.add(Verdict.TYPE)
-        if (elem >= ln or n > ln or elem + n > ln or n == 0 or off % siz or nd == 0
+        # (a byte offset inside an element is not checked by the write path: it writes at off // size)
+        if (elem >= ln or n > ln or elem + n > ln or n == 0 or nd == 0
                 or start + nd > elem + n or start >= ln):
             v.add(Verdict.RANGE)
     if not v:
